@@ -273,6 +273,7 @@ func suiteGuards(c *Ctx) {
 			// a value inside the exported bounds whose derivation would be expensive: the implementation is not
 			// run; the guards regenerated from the current source must accept it
 			c.Op(a.op("guards"), "accept")
+			c.Op(a.op("accepts"), "accept")
 			c.Count(a.scheme + ":accept:not-run")
 			return
 		}
@@ -281,6 +282,9 @@ func suiteGuards(c *Ctx) {
 			r = "accept"
 		}
 		c.Op(a.op("guards"), r)
+		// the same call against the declarative bounds specification: a disagreement is a concrete input on
+		// which the implementation accepts/rejects differently from the exported limits
+		c.Op(a.op("accepts"), r)
 		c.Count(a.scheme + ":" + strings.SplitN(r, " ", 3)[0] + ":" + strings.SplitN(r+" - -", " ", 3)[1])
 	}
 	for _, si := range schemeInfos {
@@ -380,6 +384,32 @@ func suiteGuards(c *Ctx) {
 				cheap = a.rounds > 16777215 || a.rounds < 3000
 			}
 			emit(a, !cheap)
+		}
+		if si.name == "argon2" {
+			for _, v := range []int{0, 1, 15, 16, 17, 18, 19, 20, 0x10, 0x13, 0x1013, 255, 256, 275, 1 << 20} {
+				for _, pf := range append(append([]string{}, si.prefixes...), "$argon2$", "") {
+					a := base()
+					a.optsNil = false
+					a.optPrefix = pf
+					a.optVersion = v
+					emit(a, false)
+				}
+				c.NonTrivial(fmt.Sprintf("argon2:version:%d", v))
+			}
+			for _, m := range []uint32{0, 1, 7, 8, 9, 15, 16} {
+				for _, t := range []uint32{0, 1, 2} {
+					for _, p := range []uint8{0, 1, 2, 3} {
+						a := base()
+						a.memory, a.rounds, a.threads = m, t, p
+						emit(a, false)
+					}
+				}
+			}
+			for _, l := range []int{0, 1, 8, 9, 10, 11, 12, 13} {
+				a := base()
+				a.salt = c.genText(si.saltAlpha, l)
+				emit(a, false)
+			}
 		}
 		// password length limits
 		for _, l := range []int{si.maxPw - 1, si.maxPw, si.maxPw + 1, si.maxPw + 2, 0, 1} {
